@@ -16,7 +16,7 @@ Not decided: that two structurally identical float computations round identicall
 establishes; uniform-model views; numeric equality of different float paths.
 """
 from fractions import Fraction
-from vlib import sym, rules, effects, anchors
+from vlib import pow2 as pow2mod, facts, sym, rules, effects, anchors
 
 LQD = 'stream::model::quantize::LeakilyQuantizedDistribution'
 MODEL_TRAITS = ('stream::model::EntropyModel', 'stream::model::EncoderModel', 'stream::model::DecoderModel', 'stream::model::IterableEntropyModel')
@@ -281,6 +281,58 @@ def check_lookup_fill(ctx, F):
         ctx.bad('R4', role, b.defpath, bad or 'range-indexed iteration over the cdf not found', key=key, loc=rules.loc(b))
     else:
         ctx.ok('R4', role, b.defpath, 'cdf copied unchanged; fill iterates model.cdf[1..len-1]', key=key)
+
+
+def check_lookup_growth(ctx, F):
+    """The table of a lookup decoder that is built from a symbol table only ever *grows*: every `resize` extends it by the
+    current symbol's probability, with the length computed in usize as `len + probability`.  A target length computed in the
+    Probability type (a right-sided cumulative) wraps to 0 for the last symbol when PRECISION == Probability::BITS, and
+    `resize(0)` truncates everything filled so far, so the lookup decoder answers with the last symbol for every quantile
+    while the model's symbol table still looks right."""
+    n = 0
+    for b in F.bodies:
+        if b.promoted is not None or '::tests::' in b.defpath or 'stream::model::categorical::lookup_' not in b.defpath:
+            continue
+        if not any(facts.callee_name(t) == 'resize' for _, t in b.calls()):
+            continue
+        ev, paths = rules.evaluate(b)
+        ctx.touch(b)
+        key = 'R4/lookup-table-grows/' + b.defpath
+        role = 'each resize of the lookup table extends it (target = len + probability, in usize)'
+        bad = unk = None
+        seen = 0
+        for r in paths or []:
+            for e in r.events:
+                if e['kind'] != 'call' or not e['callee'].endswith('::resize') or len(e['args_val']) != 3:
+                    continue
+                seen += 1
+                tgt = effects.strip_uid(e['args_val'][1])
+                tab = e['args'][0]
+                cur = [x for x in sym.subterms(tgt) if isinstance(x, tuple) and x and x[0] == 'len']
+                wraps = sym.contains(tgt, lambda x: isinstance(x, tuple) and x and x[0] == 'bin' and x[1].endswith('.w'))
+                grows = tgt[0] == 'bin' and tgt[1].split('.')[0] == 'Add' and not tgt[1].endswith('.w') and any(y[0] == 'len' for y in (tgt[2], tgt[3]))
+                if wraps:
+                    bad = 'the target length %s is computed with wrapping arithmetic in the probability type: it is 0 for the last symbol when PRECISION equals the bit width, and resize(0) discards the table filled so far' % sym.show(tgt)[:90]
+                elif not grows:
+                    core = tgt
+                    while isinstance(core, tuple) and core and (core[0] == 'cast' or (core[0] == 'proj' and core[2] == 'deref')):
+                        core = core[2] if core[0] == 'cast' else core[1]
+                    if sym.show(core).startswith('payload(core::iter::Iterator::next(') and not sym.contains(core, lambda x: isinstance(x, tuple) and x and x[0] == 'bin'):
+                        continue    # a cumulative taken as it is from the iterated sequence (the range/extent rules decide which entries take part)
+                    a = sym.affine(tgt)
+                    if not (a is not None and not a[0] and a[1] >= 0) and not pow2mod.p2(tgt):
+                        unk = 'target length %s is not of the form len + probability' % sym.show(tgt)[:90]
+        if not seen:
+            continue
+        n += 1
+        if bad:
+            ctx.bad('R4', role, b.defpath, bad, key=key, loc=rules.loc(b))
+        elif unk:
+            ctx.unresolved('R4', role, b.defpath, unk, key=key)
+        else:
+            ctx.ok('R4', role, b.defpath, '%d resize site(s)/path(s): len + probability' % seen, key=key)
+    if n == 0:
+        ctx.unresolved('R4', 'lookup tables filled by resize', 'stream::model::categorical', 'no constructor fills a lookup table by resize any more', key='R4/floor/lookup-table-grows')
 
 
 # ---------------------------------------------------------------- clause 5 (Tier 2)
@@ -793,6 +845,72 @@ def facts_callee(t):
     return (c.get('def') or '') if c else ''
 
 
+def check_symbol_successor(ctx, F):
+    """The walk over a quantized model's support (its symbol_table iterator, the conversions and diagnostics built on it) forms
+    `symbol + 1` only for a symbol that is known to differ from / lie below another symbol of the support (its maximum): a
+    support may end at `Symbol::max_value()`, where the unguarded successor overflows (panic in debug builds, a walk that never
+    terminates in release builds) although the encoder and decoder views of the same model work.  Rule over every
+    `Add::add(x, one())` on a value of a generic *symbol* type in the iterators of stream::model: a strict comparison of x with
+    another symbol holds on the path."""
+    n = 0
+    for b in F.bodies:
+        if b.promoted is not None or b.name != 'next' or b.impl_trait != 'core::iter::Iterator' or not b.defpath.startswith('<stream::model::') or '::tests::' in b.defpath:
+            continue
+        sites = []
+        for i, t in b.calls():
+            c = facts.callee(t)
+            if c and c.get('name') == 'add' and str(c.get('def', '')).startswith('core::ops') and c.get('args'):
+                ty = F.types[c['args'][0]['ty']] if isinstance(c['args'][0], dict) and 'ty' in c['args'][0] else None
+                if ty and ty.get('k') == 'param':
+                    sites.append(i)
+        if not sites:
+            continue
+        ev, paths = rules.evaluate(b)
+        ctx.touch(b)
+        key = 'R9/symbol-successor/' + b.defpath
+        role = 'the successor of a symbol is formed only below the end of the support'
+        bad = None
+        seen = 0
+        for r in paths or []:
+            for i, e in enumerate(r.events):
+                if e['kind'] != 'call' or e['callee'] != 'core::ops::Add::add' or e['block'] not in sites:
+                    continue
+                a = e['args_val']
+                one = [x for x in a if x == ('call', 'num_traits::One::one', (), None) or sym.show(x) == 'one()']
+                if len(one) != 1:
+                    continue
+                x = [y for y in a if y not in one][0]
+                seen += 1
+                ok = False
+                for ev2 in r.events[:i]:
+                    if ev2['kind'] != 'branch':
+                        continue
+                    t, v = ev2['term'], bool(ev2['value'])
+                    while isinstance(t, tuple) and t and t[0] == 'not':
+                        t, v = t[1], not v
+                    if not (isinstance(t, tuple) and t and t[0] == 'bin'):
+                        continue
+                    op = t[1].split('.')[0]
+                    l, rr = t[2], t[3]
+                    if op in ('Eq',) and not v and x in (l, rr):
+                        ok = True
+                    if op in ('Ne',) and v and x in (l, rr):
+                        ok = True
+                    if (op == 'Lt' and v and l == x) or (op == 'Gt' and v and rr == x) or (op == 'Ge' and not v and l == x) or (op == 'Le' and not v and rr == x):
+                        ok = True
+                if not ok:
+                    bad = 'the successor of %s is formed on a path without a test that it is below/different from the last symbol: for a support that ends at the largest value of the symbol type the increment overflows' % sym.show(x)[:60]
+        if seen == 0:
+            continue
+        n += 1
+        if bad:
+            ctx.bad('R9', role, b.defpath, bad, key=key, loc=rules.loc(b))
+        else:
+            ctx.ok('R9', role, b.defpath, '%d successor site(s)/path(s), each behind a strict comparison' % seen, key=key)
+    if n == 0:
+        ctx.unresolved('R9', 'symbol-table iterators that step a generic symbol', 'stream::model', 'none found (the quantized model\'s iterator no longer forms `x + one()`?)', key='R9/floor/symbol-successor')
+
+
 def run(ctx):
     F = ctx.F
     check_quantizer_boundaries(ctx, F)
@@ -800,10 +918,12 @@ def run(ctx):
     check_size_hint_steps(ctx, F)
     check_conservative_preskip(ctx, F)
     check_uniform_table_extent(ctx, F)
+    check_symbol_successor(ctx, F)
     check_views(ctx, F)
     check_forwarding(ctx, F)
     check_pass_through(ctx, F)
     check_lookup_fill(ctx, F)
+    check_lookup_growth(ctx, F)
     check_lazy_eager(ctx, F)
     ctx.assume('structural equality of two float computations implies bit-identical results (same operations in the same order); an algebraically equivalent rewrite of one sibling would be reported (DESIGN R4)')
     return {
